@@ -28,6 +28,13 @@ var backends = []Backend{
 	}},
 }
 
+// z3-new without the array extensionality axioms: a weaker theory, so only `unsat` answers are used
+// (a proof that does not need extensionality is a proof); structs and slices are datatypes over arrays
+// and equalities between them otherwise drown the solver in extensionality splits.
+var z3noext = Backend{Name: "z3-new/noext", Bin: "z3-new", Args: func(f string, t int) []string {
+	return []string{fmt.Sprintf("-T:%d", t), "smt.array.extensional=false", f}
+}}
+
 func (e *Engine) queryText(o *Obligation, cvc5 bool) string {
 	var b strings.Builder
 	if cvc5 {
@@ -41,7 +48,11 @@ func (e *Engine) queryText(o *Obligation, cvc5 bool) string {
 		d = e.d
 	}
 	b.WriteString(d.prelude())
-	b.WriteString(d.axiomsFor(strings.Join(o.Assumps, "\n") + "\n" + o.Goal))
+	var hide []string
+	if fc := e.contracts[o.Fn]; fc != nil {
+		hide = fc.Hide
+	}
+	b.WriteString(d.axiomsForHide(strings.Join(o.Assumps, "\n")+"\n"+o.Goal, hide))
 	for _, a := range o.Assumps {
 		b.WriteString("(assert ")
 		b.WriteString(a)
@@ -219,11 +230,43 @@ func (e *Engine) solveAll(obls []*Obligation, workDir string, stats *SolveStats,
 				}
 				return
 			}
-			// stage 1: z3-new with a short budget (1 s), then z3-new and cvc5 raced for 4 s
-			st, out, secs := runSolver(ctx, backends[0], f, 1)
-			stats.add("z3-new", secs, st == want)
+			// stage 0: z3-new without array extensionality, short budget; only unsat counts
+			st, out, secs := runSolver(ctx, z3noext, f, 2)
+			stats.add(z3noext.Name, secs, st == want)
 			o.Seconds += secs
-			stage1be := "z3-new"
+			stage1be := z3noext.Name
+			if st != want {
+				// stage 1: z3-new with a short budget (1 s), then z3-new and cvc5 raced for 4 s
+				st, out, secs = runSolver(ctx, backends[0], f, 1)
+				stats.add("z3-new", secs, st == want)
+				o.Seconds += secs
+				stage1be = "z3-new"
+			}
+			if st != want && !allBackends {
+				// stage 1b: the same goal under the relevant assumptions only (sound: fewer hypotheses)
+				sl := slicedAssumps(o)
+				if sl == nil && os.Getenv("GSV_DEBUG_SLICE") != "" {
+					fmt.Fprintf(os.Stderr, "slice %s: nothing to drop (%d)\n", o.Name, len(o.Assumps))
+				}
+				if sl != nil {
+					o2 := *o
+					o2.Assumps = sl
+					o2.Watch = nil
+					fs := filepath.Join(workDir, fmt.Sprintf("q%05d.sliced.smt2", i))
+					os.WriteFile(fs, []byte(e.queryText(&o2, false)), 0o644)
+					s2, out2, t2 := runSolver(ctx, z3noext, fs, min(e.timeoutS, 5))
+					stats.add(z3noext.Name, t2, s2 == want)
+					o.Seconds += t2
+					if s2 == want {
+						st, out, stage1be = s2, out2, z3noext.Name+"/sliced"
+					}
+					if os.Getenv("GSV_DEBUG_SLICE") != "" {
+						fmt.Fprintf(os.Stderr, "slice %s: kept %d/%d -> %s %.1fs\n", o.Name, len(sl), len(o.Assumps), s2, t2)
+					} else {
+						os.Remove(fs)
+					}
+				}
+			}
 			if st != want && !allBackends {
 				os.WriteFile(fc, []byte(e.queryText(o, true)), 0o644)
 				type r1 struct {
@@ -262,19 +305,32 @@ func (e *Engine) solveAll(obls []*Obligation, workDir string, stats *SolveStats,
 				}
 				ch := make(chan r, 3)
 				cctx, cancel := context.WithCancel(ctx)
-				for _, be := range backends {
+				racers := append(append([]Backend(nil), backends...), z3noext)
+				// seed portfolio: quantifier-heavy goals are search-order sensitive; other seeds often
+				// find in a fraction of a second what the default order misses
+				for _, seed := range []int{1, 2, 3} {
+					sd := seed
+					racers = append(racers, Backend{Name: z3noext.Name, Bin: "z3-new", Args: func(f string, t int) []string {
+						return []string{fmt.Sprintf("-T:%d", t), "smt.array.extensional=false", fmt.Sprintf("smt.random_seed=%d", sd), f}
+					}})
+				}
+				ch = make(chan r, len(racers))
+				for _, be := range racers {
 					go func(be Backend) {
 						file := f
 						if be.Cvc5 {
 							file = fc
 						}
 						s2, o2, t2 := runSolver(cctx, be, file, e.timeoutS)
+						if be.Name == z3noext.Name && s2 == "sat" {
+							s2 = "unknown" // a model of the weaker theory proves nothing
+						}
 						ch <- r{be.Name, s2, o2, t2}
 					}(be)
 				}
 				var results []r
 				decided := false
-				for range backends {
+				for range racers {
 					x := <-ch
 					results = append(results, x)
 					stats.add(x.be, x.secs, x.st == want)
@@ -317,10 +373,17 @@ func (e *Engine) solveAll(obls []*Obligation, workDir string, stats *SolveStats,
 							o.Status = "timeout"
 						}
 					}
+					allErr := len(results) > 0
 					for _, x := range results {
 						o.Raw += "[" + x.be + "] " + strings.TrimSpace(x.out) + "\n"
+						if x.st != "error" {
+							allErr = false
+						}
 					}
 					o.Backend = "none"
+					if allErr {
+						o.Status = "solver-error" // every back end rejected the query text: a generator bug, not a verdict
+					}
 				}
 			}
 			if o.Status == "sat" {
